@@ -91,7 +91,11 @@ extern "C" void h_decompress_code(void) {
   uint8_t in[3]; vf_havoc(in, 3);
   HuffLZ d(BitStreamReader(in, 3));
   vf_havoc(d.m_DecompressBuffer, 4096);
+#ifdef WIDX
+  uint64_t w = WIDX;                       // write index concrete per query (the window contents and the distance stay symbolic)
+#else
   uint64_t w = vf_nondet_u64(); vf_assume(w < 4096);
+#endif
   d.m_BuffWriteIndex = w;
   static uint8_t sim[4096]; memcpy(sim, d.m_DecompressBuffer, 4096);
   bool eos = d.DecompressCode();
